@@ -105,7 +105,9 @@ func genVal(r *hx.Rng, f string) string {
 	return fmt.Sprintf("s%d", r.Intn(30))
 }
 
-func genBatch(r *hx.Rng, maxRows int, late bool, hiWater int) []engx.Row {
+// sparsePct: in a third of the histories two of the four columns are very sparse (a value in ~6 %
+// of the rows): most segments of such a column hold nothing but nulls.
+func genBatch(r *hx.Rng, maxRows int, late bool, hiWater int, sparse bool) []engx.Row {
 	n := 1 + r.Intn(maxRows)
 	var rows []engx.Row
 	for i := 0; i < n; i++ {
@@ -123,12 +125,19 @@ func genBatch(r *hx.Rng, maxRows int, late bool, hiWater int) []engx.Row {
 			row.Series, row.T = rows[i-1].Series, rows[i-1].T
 		}
 		for _, f := range engx.FieldNames {
-			if r.Chance(45) {
+			pct := 45
+			if sparse && (f == "ff" || f == "fs") {
+				pct = 6
+			}
+			if r.Chance(pct) {
 				row.Fields[f] = genVal(r, f)
 			}
 		}
 		if len(row.Fields) == 0 {
 			f := engx.FieldNames[r.Intn(len(engx.FieldNames))]
+			if sparse {
+				f = []string{"fb", "fi"}[r.Intn(2)]
+			}
 			row.Fields[f] = genVal(r, f)
 		}
 		rows = append(rows, row)
@@ -281,7 +290,7 @@ func trace(format string, a ...any) {
 }
 
 func runHistory(c *hx.Ctx, r *hx.Rng, idx int, maxOps int) error {
-	dir := engx.ScratchDir("c02")
+	dir := engx.FastScratchDir("c02")
 	defer os.RemoveAll(dir)
 	walParts := []int{1, 2, 4}[r.Intn(3)]
 	// rows per segment of the data files written by this history: the default (1000: one segment per
@@ -291,6 +300,10 @@ func runHistory(c *hx.Ctx, r *hx.Rng, idx int, maxOps int) error {
 	engine.VerifSetMaxRowsPerSegment(seg)
 	defer engine.VerifSetMaxRowsPerSegment(0)
 	c.Count(fmt.Sprintf("rows-per-segment=%d", seg))
+	sparse := r.Chance(33)
+	if sparse {
+		c.Count("history:sparse-columns")
+	}
 	trace("history %d parts=%d rows-per-segment=%d", idx, walParts, seg)
 	sh, err := engine.VerifOpenShard(dir, walParts)
 	if err != nil {
@@ -308,7 +321,7 @@ func runHistory(c *hx.Ctx, r *hx.Rng, idx int, maxOps int) error {
 		p := r.Intn(100)
 		switch {
 		case p < 55:
-			rows := genBatch(r, 6, r.Chance(25), hiWater)
+			rows := genBatch(r, 6, r.Chance(25), hiWater, sparse)
 			var ts []string
 			for _, x := range rows {
 				ts = append(ts, x.Text())
@@ -439,7 +452,7 @@ func ansOf(perr string, e error) string {
 }
 
 func Run(c *hx.Ctx) error {
-	c.Stats.Rule = "random histories over 3 series x 8 timestamps x 4 typed fields (partial-field rows, late data, repeated timestamps in a batch) interleaved with flush / level compaction / full compaction / out-of-order merge / clean reopen; after every op three reads (asc, desc, random range+field subset) are compared with the Lean layout model and with a Go last-write-wins map; a history is non-trivial when some (series,time) was written again while an earlier version sat in memory or in a file; distinct by op-kind string"
+	c.Stats.Rule = "random histories over 3 series x 8 timestamps x 4 typed fields (partial-field rows, late data, repeated timestamps in a batch; a third with two very sparse columns) interleaved with flush / level compaction / full compaction / out-of-order merge / clean reopen, 1000, 2 or 3 rows per segment; after every op four reads (asc, desc, random range+field subset, random range/fields with LIMIT/OFFSET pushed into the series cursors) are compared with the Lean layout model and with a Go last-write-wins map; plus record-level cases (Sort, MergeRecord asc/desc, the same merges against the model built from the translated decision functions) and memtable cases (rows of one series appended in a chosen order, never flushed, range reads in both directions); a history is non-trivial when some (series,time) was written again while an earlier version sat in memory or in a file; distinct by op-kind string"
 	n := c.Budget(60, 1500)
 	r := hx.NewRng(c.Seed)
 	runRecAlg(c, r.Fork(), n*40)
